@@ -653,6 +653,9 @@ func (r *Ref) complete(t *ast.Type, objPath, path, fieldName, outcome string, fi
 				bad = true
 			}
 			out.Elems = append(out.Elems, ev)
+			// completing an element may have run other fields: later elements (and inner
+			// lists) still belong to this list's field
+			r.curField = listField
 		}
 		if bad {
 			return Null, true
